@@ -6,7 +6,10 @@
                immediately after the TLS handshake)
        bearly  bytes the backend sends in the SAME write as its 101 response (kind 1: written as soon as the backend accepts)
        event   [side bytes sync]: side 0 = the client, 1 = the backend writes `bytes` in one Write call; sync = 1: the next
-               event waits until the other end has received everything sent so far in that direction
+               event waits until the other end has received everything sent so far in that direction;
+               [2 x 0] = both ends stay IDLE for more than 1.5 x the server's ClientReadTimeout (such tunnels run on a
+               server configured with ClientReadTimeout = 1 s): an idle step moves no byte - for the model it is an
+               empty client chunk - and the tunnel must carry the later events as if nothing had happened
        closer  0 = the client, 1 = the backend closes first, after both directions were delivered completely
        mode    0 = Close, 1 = CloseWrite (half-close) and keep reading until EOF
    output: per tunnel [bgot cgot beof ceof]: the bytes the backend received after the upgrade request head (kind 1: all
@@ -26,7 +29,11 @@ Definition decode_event (v : val) : option (which * list Z) :=
   match v with
   | VL [VZ side; VB b; VZ sync] =>
     if bytes_ok b && ((sync =? 0) || (sync =? 1)) then
-      match side with 0 => Some (CB, b) | 1 => Some (BC, b) | _ => None end
+      match side with
+      | 0 => Some (CB, b) | 1 => Some (BC, b)
+      | 2 => match b with [] => if sync =? 0 then Some (CB, []) else None | _ => None end
+      | _ => None
+      end
     else None
   | _ => None
   end.
